@@ -7,20 +7,28 @@ import MaltModel.Generated.Templates
 C17 — generated code is a well-formed tree that loads as what `to_code` shows.
 
 What is proved here (for ALL templates, bindings, trees — by structural induction over `Py.Ast`):
-* `C17_ctx_checker_sound`      the executable context checker `ctxOk` (run by the harness on the REAL tree returned by
-                               `transform_ast`) is sound (and complete) for the structural property `CtxWellFormed`.
+* `C17_ctx_checker_sound` / `_complete`   the executable context checker `ctxOk` (run by the harness on the REAL tree returned
+                               by `transform_ast`) decides the structural property `CtxWellFormed`.
 * `C17_template_ctx_partial`   `templates.replace` (model: `instantiate`) yields a context-well-formed tree from a
                                context-well-formed template and well-formed bindings, PROVIDED `usesOkSs`: the
                                `ContextAdjuster` never reaches a `NamedExpr`, a `Starred` of another ctx or a non-assignable
-                               node in a `Store`/`Del` position with its override on.  The unrestricted statement is FALSE of
-                               the pinned code (`C17_template_ctx_counterexample`; finding C17-walrus-ctx).
+                               node in a `Store`/`Del` position with its override on.  `_expr_partial` / `_bare_partial`: the same
+                               for `replace_as_expression` and for a bare placeholder.  The unrestricted statement is FALSE of
+                               the pinned code (`C17_template_ctx_counterexample`; findings C17-walrus-ctx,
+                               C17-setitem-nonassignable).
 * `C17_template_fresh_partial` copy discipline: all labels of the instantiated tree are pairwise distinct and none is a
                                label of the inputs, even when one binding is used at several placeholder occurrences,
                                PROVIDED `argsOkSs`: parameter-name placeholders are bound to `Name` nodes only
                                (`visit_arg` inserts any other bound node without copying it:
-                               `C17_template_fresh_counterexample`).
+                               `C17_template_fresh_counterexample`; at the converters' call sites this happens once, in the
+                               factory wrapper, with nodes created for that call — checked on every run).
+* `C17_bindings_checker_sound` the executable form of the bindings hypothesis evaluated by the driver is sound.
 * `C17_gen_*`                  the statements above instantiated at every template extracted from the converters
-                               (`Gen.allTemplates`, regenerated from /repo on every run).
+                               (`Gen.allTemplates`, regenerated from /repo on every run); all extracted templates are
+                               context-well-formed; the unresolved (dynamic) sites are exactly the two known ones.
+* `C17_lists_*`                two `Feature.LISTS` converter steps that use a template where it does not fit (findings
+                               C17-lists-store-list-display, C17-lists-append-in-expression).
+* `C17_roundtrip_model`        `read (print t) = some t` for the total reader/printer pair the driver runs.
 Node identity of real Python objects, `ast.unparse`/`ast.parse`, `compile` and the import system are runtime facts:
 they are CHECKED on the real objects by harness/run_c17.py, not proved.
 -/
